@@ -261,12 +261,17 @@ def run_unit(name, tier='quick', use_cache=True, extra_args=(), log=print, degra
         tags = mk[1] if mk and mk[1] else []
         label = mk[2] if mk and mk[1] else None
         attr = 'marker' if tags else None
+        # rules on the MESSAGE of the diagnostic ("message:<regex>") come first: e.g. a failed termination measure is reported at the end of the loop,
+        # where the governing marker is whatever happens to be the last one of the body
+        for rx, tg, lb in (load_rules(it['module']) if it else []):
+            if rx.startswith('message:') and tg and re.search(rx[len('message:'):], d['message'] or ''):
+                tags = tg.split(); label = lb; attr = 'rules'; mk = None; break
         if not tags and it:
             # unlabelled site (assert / lemma call / callee precondition in a body): classify the failed clause text, then the site text
             rules = load_rules(it['module'])
             for txt in ([clause['text']] if clause else []) + [sp['text'] for sp in d['spans'] if not sp.get('is_primary')] + [primary['text']]:
                 for rx, tg, lb in rules:
-                    if tg and re.search(rx, txt or ''):
+                    if tg and not rx.startswith('message:') and re.search(rx, txt or ''):
                         tags = tg.split(); label = lb + ' (site: ' + (primary['text'] or '')[:80] + ')'; attr = 'rules'; break
                 if tags: break
         if not tags:
